@@ -60,6 +60,7 @@ def _calls():
         "norm-on": lambda: P("4 decembre 2015", languages=["fr"], settings={"NORMALIZE": True}),
         "order-DMY": lambda: P("02/03/2015", languages=["en"], settings={"DATE_ORDER": "DMY"}),
         "order-YMD": lambda: P("02/03/04", languages=["en"], settings={"DATE_ORDER": "YMD"}),
+        "order-DMY-other": lambda: P("04/05/2016", languages=["en"], settings={"DATE_ORDER": "DMY"}),
         "default-num": lambda: P("02/03/2015"),
         "search-en": lambda: search_dates("on 2 March 2015 and yesterday", languages=["en"]),
         "persistent": lambda: pp().get_date_data("March"),
@@ -99,12 +100,13 @@ PAIRS = [
     ("same-config-fr-custom-settings", "fr-S", "fr-S-other"),
     ("search-fr-vs-search-de", "search-fr", "search-de"),
     ("search-vs-default-fr-parse", "search-en", "fr-default"),
+    ("equal-settings-that-matter", "order-DMY", "order-DMY-other"),
 ]
 QUICK_WARM = ["same-config-same-language", "same-call-twice", "settings-differ-irrelevant-field", "shared-settings-dict-fr-vs-en",
               "skip-tokens-differ", "parse-vs-search", "relative-base-differs", "default-parser-tz-string-vs-other-language",
               "same-config-fr-custom-settings"]
 QUICK_WARM_REV = ["relative-base-differs", "same-config-same-language", "settings-differ-irrelevant-field"]
-QUICK_COLD = ["shared-settings-dict-fr-vs-en", "relative-base-differs"]
+QUICK_COLD = ["shared-settings-dict-fr-vs-en", "relative-base-differs", "equal-settings-that-matter"]
 THOROUGH_COLD_ALL = ["shared-settings-dict-fr-vs-en", "same-config-same-language", "skip-tokens-differ"]
 
 _CALLS = None
